@@ -315,8 +315,15 @@ static inline bool mbuf_cut(struct MBuf *buf, unsigned ofs, unsigned len)
 		unsigned endofs = ofs + len;
 		memmove(buf->data + ofs, buf->data + endofs, buf->write_pos - endofs);
 		buf->write_pos -= len;
+		/* keep read cursor on the same byte */
+		if (buf->read_pos >= endofs)
+			buf->read_pos -= len;
+		else if (buf->read_pos > ofs)
+			buf->read_pos = ofs;
 	} else if (ofs < buf->write_pos) {
 		buf->write_pos = ofs;
+		if (buf->read_pos > ofs)
+			buf->read_pos = ofs;
 	}
 	return true;
 }
